@@ -303,11 +303,13 @@ fn show_header(h: &HeaderRecord) -> String {
 fn show_perr(e: &interval_pair::Error) -> String {
     probe(e);
     use omics::coordinate::interval::{ClampError, Error as IErr};
+    #[allow(unreachable_patterns)]
     match e {
         interval_pair::Error::EntityCountsDontMatch(_, _) => "counts".into(),
         interval_pair::Error::Interval(IErr::Clamp(ClampError::MismatchedContigs { .. })) => "ctg".into(),
         interval_pair::Error::Interval(IErr::Clamp(ClampError::MismatchedStrand { .. })) => "strand".into(),
         interval_pair::Error::Interval(_) => "otherinterval".into(),
+        _ => "other".into(),
     }
 }
 
@@ -342,9 +344,11 @@ fn show_line(l: &Line) -> String {
 
 fn show_lineerr(e: &line::Error) -> String {
     probe(e);
+    #[allow(unreachable_patterns)]
     match e {
         line::Error::InvalidHeaderRecord { .. } => "err:hdr".into(),
         line::Error::InvalidAlignmentDataRecord { .. } => "err:dat".into(),
+        _ => "err:other".into(),
     }
 }
 
@@ -373,6 +377,8 @@ fn show_secerr(e: &sections::Error) -> String {
             format!("badline:d:{}", show_x(line.as_bytes()))
         }
         E::Builder(_) => "builder".into(),
+        #[allow(unreachable_patterns)]
+        _ => "other".into(),
     }
 }
 
@@ -539,6 +545,8 @@ fn cmd_pline(a: &str) -> String {
                 Ok(Line::AlignmentData(d)) => direct_d.as_ref().ok() == Some(d),
                 Err(line::Error::InvalidHeaderRecord { .. }) => direct_h.is_err(),
                 Err(line::Error::InvalidAlignmentDataRecord { .. }) => direct_d.is_err(),
+                #[allow(unreachable_patterns)]
+                Err(_) => true,
             };
             if !agree {
                 return format!("NOTEQUAL-direct {:?} VS {:?} / {:?}", parsed, direct_h, direct_d);
@@ -913,6 +921,8 @@ fn cmd_ops(a: &str, ops: &str) -> String {
                             match e {
                                 reader::Error::Io(e) => format!("err:{}", show_ioerr(e)),
                                 reader::Error::Line(e) => show_lineerr(e),
+                                #[allow(unreachable_patterns)]
+                                _ => "err:other".into(),
                             }
                         }
                     };
